@@ -5,7 +5,8 @@ import qgen
 NUMS = [('float', 'f'), ('double', 'd'), ('long double', 'l')]
 
 
-def sources(qs, nparts=16):
+def sources(qs, nparts=16, unitpick=None):
+    unitpick = unitpick or {}
     names = sorted(qs) + qgen.RAWTYPES
     parts = []
     for k in range(nparts):
@@ -15,8 +16,12 @@ def sources(qs, nparts=16):
         out = [qgen.includes(qs), '#include "battery.hpp"', 'using namespace PhQ;']
         for n in mine:
             shape = qgen.shape_of(n, qs)
-            out.append('template<class TT> struct Ad_%s { using T = TT; using Q = %s<TT>; static constexpr int N = %d; static Q make(const T* x){ return %s; } };'
-                       % (n, n, qgen.NCOMP[shape], qgen.mk(n, qs, 'x', '0')))
+            ut = qs[n]['unit'] if n in qs else None
+            extra = ''
+            if ut and ut in unitpick:
+                extra = ' static constexpr long factor = %d; static constexpr Unit::%s unit = Unit::%s::%s;' % (unitpick[ut][1], ut, ut, unitpick[ut][0])
+            out.append('template<class TT> struct Ad_%s { using T = TT; using Q = %s<TT>; static constexpr int N = %d; static Q make(const T* x){ return %s; }%s };'
+                       % (n, n, qgen.NCOMP[shape], qgen.mk(n, qs, 'x', '0'), extra))
         out.append('void bpart_%d(const std::string& mode, const bat::Suite& s, uint64_t seed, int n){' % k)
         for n in mine:
             norm = 'true' if n in qgen.NORMALISED else 'false'
